@@ -192,6 +192,14 @@ def run_one(seed, tape, opts):
     undeclared = 0
     if not viol and r == "until":
         for s in w.sides:
+            for rec in s.connect_results:
+                if rec[1] == "failed":
+                    V("C13.connect_failed.%s" % rec[2].__name__, "a subchannel "
+                      "opened by one side appears exactly once on the other "
+                      "side", "%s: connect(%r) failed with %s" %
+                      (s.name, rec[0], rec[2].__name__))
+    if not viol and r == "until":
+        for s in w.sides:
             peer = w.peer_of(s)
             for p in s.opened:
                 if p.scid in scids:
